@@ -2275,6 +2275,11 @@ func (t *tScreen) disengage() {
 	t.Lock()
 	defer t.Unlock()
 
+	// the input loops are gone, and with them whatever they had buffered:
+	// an ESC held back as Alt prefix must not wait for the first key after
+	// a Resume
+	t.escaped = false
+
 	// shutdown the screen and disable special modes (e.g. mouse and bracketed paste)
 	ti := t.ti
 	t.cells.Resize(0, 0)
